@@ -18,7 +18,7 @@ def run(ctx, only=None):
     for r in recs:
         if 'inputs' in r:
             ctx.evaluations += r['calls']
-            ctx.nontrivial.update(range(r['inputs'] - 1))
+            ctx.nontrivial_counted += r['nonempty_distinct_inputs']   # the exhaustive part enumerates distinct sequences; random ones collide with negligible probability
             ctx.cov.update({'inputs': r['inputs'], 'exhaustive_inputs': r['exhaustive_inputs'], 'aggregator_calls': r['calls'], 'percentile_rank_sweep_points': r['percentile_rank_sweep']})
             ctx.sample(r)
     for v in [r for r in recs if r.get('violation')]:
